@@ -258,7 +258,7 @@ func headerFields(part, parts int) {
 			for _, lead := range [][]byte{{0xFF, 0x01}, {0xF0}, {0xF7}, {0xFF, 0x7F}, {0xFF, 0x51}} {
 				body := append([]byte{0x00}, lead...)
 				body = append(body, ln...)
-				for _, tail := range [][]byte{nil, {0x41}, {0x41, 0x00, 0xFF, 0x2F, 0x00}} {
+				for _, tail := range [][]byte{nil, {0x41}, {0x41, 0x00, 0xFF, 0x2F, 0x00}, make([]byte, 4095), make([]byte, 4096), make([]byte, 5000), make([]byte, 9000)} {
 					b := append(append([]byte{}, body...), tail...)
 					basic(append(hdr(0, 1, 96), refsmf.Chunk("MTrk", b)...), "declared-length", "declared-length")
 				}
